@@ -290,9 +290,8 @@ Proof.
   all: try assumption.
   all: gen_hd HI.
   all: intros k k2 Hx; simp2; pose proof (Kj k k2); dupd; tid_inj; subst; rw_phases; simpl in *; try congruence; auto.
-  all: try (injection Hx as Hx; subst; simpl in *; rw_phases;
-            match goal with Hr : runsb _ _ = true |- _ => simpl in Hr; intros Q; rewrite Q in Hr; discriminate end).
-Show. Qed.
+  all: injection Hx as Hx; subst rt; simpl in *; intros Q; rewrite Q in *; discriminate.
+Qed.
 
 Lemma b_f_2 : forall e s', step c s e = Some s' ->
   c_mode c = MForever -> mlit (mp s') = false -> forall i, cp s' i = CInit.
